@@ -22,7 +22,9 @@ EXTENDS Integers, Sequences, FiniteSets, TLC
 
 CONSTANTS MaxVersion,   \* bound on the number of distinct states
           MaxFaults,    \* bound on injected faults (crash / failing operation)
-          SilentRace    \* TRUE: a change during serialisation may go unnoticed by the dump (observation 9b)
+          SilentRace,   \* TRUE: a change during serialisation may go unnoticed by the dump
+          ClaimFirst    \* TRUE (repaired code): need_save is cleared BEFORE the state is serialised and set again when the
+                        \* attempt fails; FALSE (pinned code): it is cleared at the end of a successful save
 
 ABSENT == -1
 BAD    == -2
@@ -78,8 +80,9 @@ SaveBegin ==      \* save_sensors entered: nothing to do when the state is not m
   /\ IF ~dirty THEN UNCHANGED <<sv, fs, buf>> /\ sched' = (IF sched = "running" THEN "armed" ELSE sched)
      ELSE /\ sv' = [pc |-> "open", exists |-> fs["main"].vol # ABSENT, snap |-> cur, bakd |-> FALSE]
           /\ UNCHANGED <<fs, buf, sched>>
+  /\ dirty' = (IF ClaimFirst THEN FALSE ELSE dirty)       \* the pending changes are claimed before they are serialised
   /\ lastfail' = FALSE
-  /\ UNCHANGED <<cur, nextv, dirty, faults, committed, up>>
+  /\ UNCHANGED <<cur, nextv, faults, committed, up>>
 Open ==           \* open(tmp, "w"): create / truncate
   /\ At("open") /\ fs' = [fs EXCEPT !["tmp"] = File(BAD, BAD)] /\ buf' = BAD /\ Goto("write")
   /\ UNCHANGED <<cur, nextv, dirty, sched, faults, committed, up, lastfail>>
@@ -109,8 +112,8 @@ Ren2 ==           \* os.rename(tmp, main): the commit point
 Rm ==             \* os.remove(bak)
   /\ At("rm") /\ fs' = [fs EXCEPT !["bak"] = NoFile] /\ Goto("clear")
   /\ UNCHANGED <<buf, cur, nextv, dirty, sched, faults, committed, up, lastfail>>
-Clear ==          \* need_save = False; the schedule re-arms
-  /\ At("clear") /\ dirty' = FALSE /\ sv' = Idle
+Clear ==          \* save_sensors returns (pinned code: need_save = False only now); the schedule re-arms
+  /\ At("clear") /\ dirty' = (IF ClaimFirst THEN dirty ELSE FALSE) /\ sv' = Idle
   /\ sched' = (IF sched = "running" THEN "armed" ELSE sched)
   /\ UNCHANGED <<fs, buf, cur, nextv, faults, committed, up, lastfail>>
 
@@ -123,7 +126,8 @@ OpFails ==
            THEN [fs EXCEPT !["tmp"].vol = IF buf = sv.snap /\ sv.pc # "write" THEN buf ELSE BAD] ELSE fs
   /\ buf' = ABSENT /\ sv' = Idle /\ lastfail' = TRUE
   /\ sched' = (IF sched = "running" THEN "armed" ELSE sched)
-  /\ UNCHANGED <<cur, nextv, dirty, committed, up>>
+  /\ dirty' = TRUE                    \* (ClaimFirst: the claim is given back; pinned code: the flag was never cleared)
+  /\ UNCHANGED <<cur, nextv, committed, up>>
 
 \* the network changes (a message is handled); while the state is being serialised this
 \* either makes the dump raise ("changed size during iteration") or goes unnoticed by it
@@ -185,9 +189,10 @@ LoadWhole == \A lose \in BOOLEAN : LET v == LoadNow(lose) IN v = 0 \/ IsSnap(v)
 FailedAttemptHarmless ==
   /\ sched # "dead"
   /\ (sv.pc = "idle" /\ faults > 0 /\ LastStepFailed => dirty)
-\* NOT claimed by any listed property (see DESIGN.md, observation 9b): a change that lands while
-\* the state is being serialised and goes unnoticed is forgotten when the flag is cleared at the
-\* end of the save.  TLC produces the counterexample; kept as documentation.
+\* C15 ("the next successful attempt persists the then-current state"): a state that counts as saved IS saved - also when
+\* a change landed while an earlier state was being serialised and the dump did not notice.  The pinned code
+\* (ClaimFirst = FALSE) violates this: the flag is cleared at the end of the save that missed the change
+\* (Persist_pinned.cfg: TLC counterexample, kept as documentation).
 NoLostUpdate == up /\ sv.pc = "idle" /\ ~dirty => committed = cur
 ScheduleAlive == [][sched = "running" => sched' \in {"running", "armed", "off"}]_vars
 \* C15 (liveness, finite faults): an unsaved state is eventually on disk, or superseded
